@@ -15,8 +15,15 @@ a switch away from a thread that is still enabled.
 A blocked thread (Queue.get on an empty queue, Thread.join on a live thread) is
 disabled until its predicate holds; "no enabled thread and not all finished" is
 a deadlock; every execution has a step horizon.
+
+Timers: a blocking call made with a timeout (Queue.get(timeout=..), Event.wait(t),
+join(t)) may also end because its timer fires first.  A timer landing before the
+awaited event is a *deviation* from the default environment answer; at most
+``timer_bound`` timers fire per execution and each one counts like a preemption
+against the exploration bound, so polling loops cannot make the space cyclic.
 """
 
+import queue as _real_queue
 import sys
 import threading as _real_threading
 from collections import deque as _real_deque
@@ -32,6 +39,11 @@ class HorizonExceeded(Exception):
 
 class ReplayDivergence(Exception):
     pass
+
+
+class WallClockTimeout(Exception):
+    """The OS did not schedule the baton threads within the (very generous) wall-clock limit: an engine
+    condition (overloaded machine), never a property verdict."""
 
 
 class _Abort(BaseException):
@@ -50,6 +62,7 @@ class _T:
         self.started = False
         self.finished = False
         self.blocked_on = None
+        self.timed = False
         self.exc = None
         self.os_thread = None
 
@@ -57,12 +70,17 @@ class _T:
         if not self.started or self.finished:
             return False
         if self.blocked_on is not None:
-            return bool(self.blocked_on())
+            if self.blocked_on():
+                return True
+            # a timed wait may also end through its timer (bounded deviation)
+            return self.timed and self.sched.timers_fired < self.sched.timer_bound
         return True
 
 
 class Scheduler:
-    def __init__(self, prefix=(), horizon=4000, fine_files=()):
+    def __init__(self, prefix=(), horizon=4000, fine_files=(), timer_bound=1):
+        self.timer_bound = timer_bound
+        self.timers_fired = 0
         self.prefix = list(prefix)
         self.horizon = horizon
         self.threads = []
@@ -121,15 +139,29 @@ class Scheduler:
 
     # -- choice ------------------------------------------------------------
     def _choose(self, cur):
-        """Return the thread to run next. cur may be None/finished/blocked."""
-        cur_enabled = cur is not None and cur.enabled()
-        enabled = [t for t in self.threads if t.enabled()]
-        if not enabled:
-            return None, cur_enabled
-        order = []
-        if cur_enabled:
-            order.append(cur)
-        order += [t for t in enabled if t is not cur]
+        """Return the thread to run next. cur may be None/finished/blocked.
+        Canonical order of the alternatives: the running thread if it can continue, the other ready threads
+        by ascending id, then the threads that could only continue because their timer fires (deviations)."""
+
+        def ready(t):
+            return t.started and not t.finished and (t.blocked_on is None or bool(t.blocked_on()))
+
+        def timer_only(t):
+            return (
+                t.started
+                and not t.finished
+                and t.blocked_on is not None
+                and t.timed
+                and not t.blocked_on()
+                and self.timers_fired < self.timer_bound
+            )
+
+        cur_ready = cur is not None and ready(cur)
+        normal = [t for t in self.threads if ready(t) and t is not cur]
+        timers = [t for t in self.threads if timer_only(t)]
+        order = ([cur] if cur_ready else []) + normal + timers
+        if not order:
+            return None, cur_ready
         idx = len(self.points)
         if idx >= self.horizon:
             self.error = HorizonExceeded(f"more than {self.horizon} scheduling points")
@@ -137,7 +169,7 @@ class Scheduler:
             raise _Abort()
         if len(order) == 1:
             # forced move: not a choice point (keeps choice sequences short)
-            return order[0], cur_enabled
+            return order[0], cur_ready
         if idx < len(self.prefix):
             c = self.prefix[idx]
             if c >= len(order):
@@ -146,8 +178,17 @@ class Scheduler:
                 raise _Abort()
         else:
             c = 0
-        self.points.append(([t.tid for t in order], c, cur_enabled))
-        return order[c], cur_enabled
+        nfree = (1 if cur_ready else 0) + len(normal)
+        costs = []
+        for i, t in enumerate(order):
+            if i >= nfree:
+                costs.append(0 if nfree == 0 and i == 0 else 1)  # a timer firing although someone could run
+            elif cur_ready and i != 0:
+                costs.append(1)  # preemption of a thread that could continue
+            else:
+                costs.append(0)
+        self.points.append(([t.tid for t in order], c, cur_ready, costs))
+        return order[c], cur_ready
 
     def point(self, label=""):
         """Scheduling point of the running thread."""
@@ -160,18 +201,30 @@ class Scheduler:
         if nxt is not cur:
             self._handoff(cur, nxt)
 
-    def block(self, pred):
-        """The running thread cannot continue until pred() holds."""
+    def block(self, pred, timed=False):
+        """The running thread cannot continue until pred() holds.  With timed=True the wait may also
+        end because its timer fires (returns False then); returns True when pred() holds."""
         cur = self.current
         while not pred():
             if self.abort:
                 raise _Abort()
             cur.blocked_on = pred
+            cur.timed = timed
             nxt, _ = self._choose(cur)
             if nxt is None:
+                cur.blocked_on = None
+                cur.timed = False
                 self._deadlock()
+            if nxt is cur:
+                # chosen although the awaited event has not happened: the timer fired
+                cur.blocked_on = None
+                cur.timed = False
+                self.timers_fired += 1
+                return False
             self._handoff(cur, nxt)
             cur.blocked_on = None
+            cur.timed = False
+        return True
 
     def _handoff(self, cur, nxt):
         self.current = nxt
@@ -205,7 +258,7 @@ class Scheduler:
         self.main_done.release()
 
     # -- running -----------------------------------------------------------
-    def run(self, main, timeout=20.0):
+    def run(self, main, timeout=600.0):
         """Run main() as logical thread 0 to completion under this scheduler."""
         t0 = self._new_thread(main, name="main")
         self.current = t0
@@ -213,7 +266,7 @@ class Scheduler:
         t0.sem.release()
         ok = self.main_done.acquire(timeout=timeout)
         if not ok:
-            self.error = self.error or HorizonExceeded("wall-clock timeout: execution did not finish")
+            self.error = self.error or WallClockTimeout("wall-clock timeout: execution did not finish (harness timing, not a verdict)")
             self._teardown()
         for t in self.threads:
             if t.os_thread is not None:
@@ -240,7 +293,7 @@ def make_namespace(sched):
         def join(self, timeout=None):
             sched.point("join")
             t = self._t
-            sched.block(lambda: t.finished)
+            sched.block(lambda: t.finished, timed=timeout is not None)
 
         def is_alive(self):
             return self._t.started and not self._t.finished
@@ -264,8 +317,7 @@ def make_namespace(sched):
 
         def wait(self, timeout=None):
             sched.point("event.wait")
-            sched.block(lambda: self._flag)
-            return True
+            return sched.block(lambda: self._flag, timed=timeout is not None)
 
     class Queue:
         def __init__(self, maxsize=0):
@@ -280,7 +332,12 @@ def make_namespace(sched):
 
         def get(self, block=True, timeout=None):
             sched.point("get")
-            sched.block(lambda: len(self._items) > 0)
+            if not block:
+                if not self._items:
+                    raise _real_queue.Empty
+                return self._items.popleft()
+            if not sched.block(lambda: len(self._items) > 0, timed=timeout is not None):
+                raise _real_queue.Empty
             return self._items.popleft()
 
         def empty(self):
@@ -326,7 +383,8 @@ def make_namespace(sched):
     th, qu = _NS(), _NS()
     th.Thread, th.Event, th.Lock, th.RLock = Thread, Event, Lock, Lock
     qu.Queue = Queue
-    qu.Empty = Exception
+    qu.Empty = _real_queue.Empty
+    qu.Full = _real_queue.Full
     return th, qu, deque
 
 
@@ -354,19 +412,15 @@ def explore(run_one, bound, root_prefix=(), stats=None, on_exec=None, max_execs=
 def children(prefix, points, bound):
     out = []
     choices = [p[1] for p in points]
-    # preemptions used before point i
-    cost = 0
-    costs = []
-    for order, c, cur_enabled in points:
-        costs.append(cost)
-        if cur_enabled and c != 0:
-            cost += 1
+    used = 0
+    before = []
+    for order, c, cur_enabled, costs in points:
+        before.append(used)
+        used += costs[c]
     for i in range(len(prefix), len(points)):
-        order, c, cur_enabled = points[i]
-        base = costs[i]
+        order, c, cur_enabled, costs = points[i]
         for alt in range(1, len(order)):
-            extra = 1 if cur_enabled else 0
-            if base + extra > bound:
+            if before[i] + costs[alt] > bound:
                 continue
             out.append(choices[:i] + [alt])
     return out
